@@ -47,6 +47,17 @@ Theorem c16_orphan_continuation : forall t p ch seq payload,
   handle_packet t p = HP t None.
 Proof. exact orphan_continuation. Qed.
 
+(** (4b) a channel re-used while a message is in progress (for every unfinished state [s]): a new multi-packet
+    message replaces the unfinished one and is delivered once, on its last packet; a new single-packet message is
+    delivered at once and the unfinished one stays *)
+Theorem c16_new_message_replaces_unfinished : forall ch cmd p s, sendable ch cmd p -> (57 < length p)%nat ->
+  run1 s (map fst (labelled ch cmd p)) = Some (None, map snd (labelled ch cmd p)).
+Proof. exact restart_stream. Qed.
+
+Theorem c16_single_packet_message_on_busy_channel : forall ch cmd p s, sendable ch cmd p -> (length p <= 57)%nat ->
+  run1 s (map fst (labelled ch cmd p)) = Some (s, [Some (Msg ch cmd 0 (length p) p)]).
+Proof. exact single_packet_keeps_state. Qed.
+
 (** (5) the receiver never panics on byte strings of any length in any order (shared with C15) *)
 Theorem c16_receiver_total : forall ps t, table_inv t -> Forall bytes_ok ps ->
   exists t' outs, run t ps = Some (t', outs) /\ table_inv t' /\ length outs = length ps.
@@ -69,3 +80,5 @@ Print Assumptions c16_at_most_128_continuations.
 Print Assumptions c16_interleaving.
 Print Assumptions c16_orphan_continuation.
 Print Assumptions c16_receiver_total.
+Print Assumptions c16_new_message_replaces_unfinished.
+Print Assumptions c16_single_packet_message_on_busy_channel.
